@@ -631,6 +631,8 @@ fn spawn_async_ao_list_in_task'''),
         ('backslash-in-the-delimiter-does-not-count-as-quoting', 'brush-parser/src/parser/peg.rs', [("specific_operator(\"<<\") here_tag:here_tag() doc:[_] closing_tag:here_tag() {\n                let requires_expansion = !here_tag.to_str().contains(['\\'', '\"', '\\\\']);", "specific_operator(\"<<\") here_tag:here_tag() doc:[_] closing_tag:here_tag() {\n                let requires_expansion = !here_tag.to_str().contains(['\\'', '\"', '\"']);")]),
     ],
     'U27b': [
+        ('character-after-the-terminator-unwrapped', 'brush-parser/src/tokenizer.rs', "                    state.append_char(\n                        self.next_char()?\n                            .ok_or(TokenizerError::UnterminatedExpansion)?,\n                    );", "                    state.append_char(self.next_char()?.unwrap());"),
+        ('closing-character-of-the-construct-unwrapped', 'brush-parser/src/tokenizer.rs', "        state.append_char(\n            self.next_char()?\n                .ok_or(TokenizerError::UnterminatedExpansion)?,\n        );\n        Ok(())", "        state.append_char(self.next_char()?.unwrap());\n        Ok(())"),
         ('end-tag-match-attempted-on-an-empty-token-before-the-body', 'brush-parser/src/tokenizer.rs', "                    if (matches!(self.cross_state.here_state, HereState::InHereDocs)\n                        || state.started_token())\n                        && self.remove_here_end_tag(&mut state, &mut result, false)?\n                    {", "                    if self.remove_here_end_tag(&mut state, &mut result, false)? {"),
         ('end-tag-reported-matched-without-delimiting', 'brush-parser/src/tokenizer.rs', "                // Delimit the end of the here-document body.\n                *result = state.delimit_current_token(\n                    TokenEndReason::HereDocumentBodyEnd,\n                    &mut self.cross_state,\n                )?;\n", ""),
     ],
